@@ -385,6 +385,9 @@ func ContextClasses(form int, p Pattern, actions []gtab.SeqLookup, back, input, 
 		return &gtab.ChainedSeqContext1{Cov: cov(first), Rules: [][]*gtab.ChainedSeqRule{{{Backtrack: p.Backtrack, Input: p.Input[1:], Lookahead: p.Lookahead, Actions: actions}}}}
 	case 4:
 		rules := make([][]*gtab.ChainedClassSeqRule, numClasses(input))
+		if input[first] != 0 {
+			rules[0] = []*gtab.ChainedClassSeqRule{} // a rule set that is present but holds no rule (as the reader returns it for a count of 0)
+		}
 		rules[input[first]] = []*gtab.ChainedClassSeqRule{{Backtrack: cls(back, p.Backtrack), Input: cls(input, p.Input[1:]), Lookahead: cls(look, p.Lookahead), Actions: actions}}
 		return &gtab.ChainedSeqContext2{Cov: cov(first), Backtrack: back, Input: input, Lookahead: look, Rules: rules}
 	default:
